@@ -326,6 +326,9 @@ def run_point(pt):
         return ["evo_rpe failed (%s: %s) for a valid request" %
                 (res.outcome(), res.exc)], "failed"
     r = file_interface.load_res_file(out)
+    if "error_array" not in r.np_arrays:
+        return ["the saved result holds no error values (arrays: %s)" %
+                sorted(r.np_arrays)], "values"
     err = np.array(r.np_arrays["error_array"], dtype=float)
     if err.shape != exp.shape:
         return ["stored %d values, %d pairs are selected on the processed "
